@@ -34,8 +34,14 @@ from hv import Case
 
 SPEC = {
     "lean_modules": ["Honeycomb.Props.C19", "Honeycomb.Lemmas.Rounding", "Honeycomb.Props.C19b",
-                     "Honeycomb.Lemmas.RoundingRange", "Honeycomb.Props.C19c"],
+                     "Honeycomb.Lemmas.RoundingRange", "Honeycomb.Props.C19c", "Honeycomb.Props.C19Gen"],
+    # Gen/Geometry.lean is re-translated from honeycomb-core/src/geometry/dim2 and dim3 (vector.rs, vertex.rs) before every build
+    "gen": ["geom"],
     "required_theorems": [
+        # Props/C19Gen.lean: every arithmetic function / operator impl of the four geometry files, per component, IS the model's (rfl);
+        # the *_complete theorems fix the list of impls per file (an impl that is added or removed is noticed)
+        "C19_gen_structs", "C19_gen_v2_unit_x", "C19_gen_v2_unit_y", "C19_gen_v2_into_inner", "C19_gen_v2_x", "C19_gen_v2_y", "C19_gen_v2_norm", "C19_gen_v2_normal_dir", "C19_gen_v2_dot", "C19_gen_v2_From_tuple", "C19_gen_v2_Add_Vector2", "C19_gen_v2_AddAssign_Vector2", "C19_gen_v2_Sub_Vector2", "C19_gen_v2_SubAssign_Vector2", "C19_gen_v2_Mul_T", "C19_gen_v2_MulAssign_T", "C19_gen_v2_Div_T", "C19_gen_v2_DivAssign_T", "C19_gen_v2_Neg", "C19_gen_v2_complete", "C19_gen_p2_into_inner", "C19_gen_p2_x", "C19_gen_p2_y", "C19_gen_p2_average", "C19_gen_p2_cross_product_from_vertices", "C19_gen_p2_From_tuple", "C19_gen_p2_Add_Vector2", "C19_gen_p2_AddAssign_Vector2", "C19_gen_p2_Add_refVector2", "C19_gen_p2_AddAssign_refVector2", "C19_gen_p2_Sub_Vector2", "C19_gen_p2_SubAssign_Vector2", "C19_gen_p2_Sub_refVector2", "C19_gen_p2_SubAssign_refVector2", "C19_gen_p2_Sub_Vertex2", "C19_gen_p2_complete", "C19_gen_v3_unit_x", "C19_gen_v3_unit_y", "C19_gen_v3_unit_z", "C19_gen_v3_into_inner", "C19_gen_v3_x", "C19_gen_v3_y", "C19_gen_v3_z", "C19_gen_v3_norm", "C19_gen_v3_dot", "C19_gen_v3_cross", "C19_gen_v3_From_tuple", "C19_gen_v3_From_Vector2", "C19_gen_v3_Add_Vector3", "C19_gen_v3_AddAssign_Vector3", "C19_gen_v3_Sub_Vector3", "C19_gen_v3_SubAssign_Vector3", "C19_gen_v3_Mul_T", "C19_gen_v3_MulAssign_T", "C19_gen_v3_Div_T", "C19_gen_v3_DivAssign_T", "C19_gen_v3_Neg", "C19_gen_v3_complete", "C19_gen_p3_into_inner", "C19_gen_p3_x", "C19_gen_p3_y", "C19_gen_p3_z", "C19_gen_p3_average", "C19_gen_p3_From_tuple", "C19_gen_p3_From_Vertex2", "C19_gen_p3_Add_Vector3", "C19_gen_p3_AddAssign_Vector3", "C19_gen_p3_Add_refVector3", "C19_gen_p3_AddAssign_refVector3", "C19_gen_p3_Sub_Vector3", "C19_gen_p3_SubAssign_Vector3", "C19_gen_p3_Sub_refVector3", "C19_gen_p3_SubAssign_refVector3", "C19_gen_p3_Sub_Vertex3", "C19_gen_p3_complete",
+        
         "C19_v2_sub_self", "C19_v2_add_sub_cancel", "C19_v2_addAssign_eq", "C19_v2_subAssign_eq",
         "C19_v3_subAssign_eq", "C19_v2_dot_comm", "C19_v3_dot_comm",
         "C19_v3_cross_antisymm", "C19_v3_cross_dot_left", "C19_v3_cross_dot_right",
